@@ -151,6 +151,8 @@ pub trait Family: Sync + Send + 'static {
     fn run(&self, prop: &str, case: &Self::Case, ctx: &mut CaseCtx) -> Result<(), Violation>;
 }
 
+const HASH_CAP: usize = 2_000_000;
+
 #[derive(Default)]
 struct Stats {
     evaluations: u64,
@@ -289,8 +291,11 @@ fn run_worker<F: Family>(
                     st.evaluations += 1;
                     let js = serde_json::to_string(&case).unwrap_or_default();
                     let h = hash_str(&js);
-                    st.distinct.insert(h);
-                    if ctx.nontrivial {
+                    // hash sets are capped per worker; beyond the cap the distinct counts are lower bounds
+                    if st.distinct.len() < HASH_CAP {
+                        st.distinct.insert(h);
+                    }
+                    if ctx.nontrivial && st.nontrivial.len() < HASH_CAP {
                         let fresh = st.nontrivial.insert(h);
                         if fresh && st.samples.len() < 4 {
                             let mut v = serde_json::to_value(&case).unwrap_or(Value::Null);
